@@ -183,12 +183,46 @@ int main(int argc, char** argv)
             }
         }
 
+        // "burst" shape: several blocked acquirers, then one actor releases back-to-back while the
+        // first woken waiter may not have consumed its permit yet
+        bool burst = sem.type == 0 && R.chance(1, 4);
+        if (burst)
+        {
+            nact = 3 + (int) R.below(3);
+            scripts.assign(nact, {});
+            on_pika.assign(nact, true);
+            for (int a = 0; a + 1 < nact; ++a) scripts[a].push_back(opdesc{k_acquire, 1, 0, 0});
+            on_pika[nact - 1] = R.chance(1, 2);
+            int split = (int) R.below(2);
+            for (int a = 0; a + 1 < nact; ++a)
+            {
+                if (split && a + 2 < nact)
+                {
+                    scripts[nact - 1].push_back(opdesc{k_release, 2, 0, 0});
+                    ++a;
+                }
+                else scripts[nact - 1].push_back(opdesc{k_release, 1, 0, 0});
+            }
+        }
         std::vector<actor_state> st(nact + 1);
         std::atomic<int> finished{0};
         std::vector<std::thread> os_threads;
         for (int a = 0; a < nact; ++a)
         {
             auto body = [&, a] {
+                if (burst && a == nact - 1)
+                {
+                    // wait (bounded) until the acquirers are blocked
+                    auto t = std::chrono::steady_clock::now() + std::chrono::milliseconds(20);
+                    for (;;)
+                    {
+                        int nb = 0;
+                        for (int b = 0; b + 1 < nact; ++b) nb += st[b].blocking.load() == 1;
+                        if (nb == nact - 1 - (int) p0 || std::chrono::steady_clock::now() > t) break;
+                        if (on_pika[a]) pika::this_thread::yield();
+                        else std::this_thread::yield();
+                    }
+                }
                 for (auto const& o : scripts[a]) do_op(sem, a + 1, o, st[a], on_pika[a]);
                 ++finished;
             };
